@@ -277,6 +277,19 @@ def bounded_checks(tab, seed, tier):
             k = int(np.argmax(bad))
             rec(f_sum, "sum", {"Z": Z.tolist(), "atoms": pos.tolist(), "point": pts[k].tolist()}, {"rho": float(got[k]), "oracle": float(exp[k]), "rtol": tol},
                 "rho(p) == sum_a T_{Z_a}(|p-a|^2/b^2) > 0")
+        # the density at a point does not depend on the batch the point sits in: batches of 1..5 points (and the same points as a float64 array / nested list)
+        for k in (1, 2, 3, 4, 5):
+            for form, sub in (("float32 array", pts[:k]), ("float64 array", np.asarray(pts[:k], dtype=np.float64)), ("nested list", np.asarray(pts[:k], dtype=np.float64).tolist())):
+                try:
+                    gk = np.asarray(full.rho(sub), dtype=np.float64).reshape(-1)
+                except Exception as e:  # noqa
+                    gk = None
+                    obs = {"raised": repr(e)[:160]}
+                ev_sum += k
+                if gk is None or gk.shape != (k,) or not np.all(np.abs(gk - got[:k]) <= tol * got[:k]):
+                    rec(f_sum, "batch", {"Z": Z.tolist(), "atoms": pos.tolist(), "points": np.asarray(pts[:k], dtype=float).tolist(), "given_as": form},
+                        obs if gk is None else {"rho_of_small_batch": gk.tolist(), "same_rows_in_the_large_batch": got[:k].tolist()},
+                        "rho of a batch is, row by row, rho of each point (any batch size, any accepted array form)")
         # additivity over a split into two disjoint atom sets
         cut = int(rng.integers(1, N))
         ga = np.asarray(PromoleculeDensity((Z[:cut], pos[:cut])).rho(pts), dtype=np.float64)
